@@ -4,12 +4,14 @@
   routes <routed denoms csv|->                                                                          → ok
   creategauge <perpetual 0/1> <lock denom> <duration ns> <coins|-> <start ns> <numEpochs>               → ok <id> up=[ids] bal=<coins> | err
   addtogauge <id> <coins|-> <now ns>                                                                     → ok <gauge coins> bal=<coins> | err
-  epoch <now ns> <thr: denom=min,…|-> <locks: id:owner:recv|-:durNs:denom:amt:unl(0/1);…|->             → ok pay=[addr:coins;…] up=[…] act=[…] fin=[…] g=[id:filled:distributed;…] bal=<coins> | err
+  epoch <now ns> <quotes: denom=min|denom=!,…|-> <locks: id:owner:recv|-:durNs:denom:amt:unl(0/1);…|->             → ok pay=[addr:coins;…] up=[…] act=[…] fin=[…] g=[id:filled:distributed;…] bal=<coins> | err
   dump                                                                                                   → every field of the state
   exportimport <now ns>                                                                                  → ok | panic
   lockable                                                                                               → ok <ns csv>
 
   coins = denom=amt,denom=amt (sorted by denom) or `-`.
+  quotes = the base denom with the MinValueForDistribution amount, every reward denom WITH a protorev route with the
+  amount CalcOutAmtGivenIn(route pool, minimum, denom) returns (0 allowed) or `!` when that call fails; no route: absent.
 -/
 import OsmoVerif.Model.Incentives
 import OsmoVerif.Model.IncentivesGenesis
@@ -55,8 +57,12 @@ def showGauges (gs : List Gauge) : String :=
 def showFull (g : Gauge) : String :=
   s!"{g.id}:{if g.perpetual then 1 else 0}:{g.denom}:{g.duration}:{showCoins g.coins}:{showCoins g.distributed}:{g.start}:{g.numEpochs}:{g.filled}"
 
-/-- a pool-priced minimum of 0 for a non-base denom is outside the modelled fragment. -/
-def thrOk (thr : Thr) : Bool := thr.all fun x => x.1 = Gen.Incentives.BaseCoinUnit || decide (0 < x.2)
+def parseQuotes (s : String) : Option Quotes :=
+  (csv s).mapM fun x =>
+    match x.splitOn "=" with
+    | [d, "!"] => some (d, none)
+    | [d, a] => a.toInt?.map fun a => (d, some a)
+    | _ => none
 
 def stepIncentives (st : State) (op : String) (args : List String) : State × String :=
   match op, args with
@@ -83,9 +89,8 @@ def stepIncentives (st : State) (op : String) (args : List String) : State × St
         | none => (s', "ok ? bal=" ++ showCoins s'.balance)
     | _, _, _ => (st, "bad-op")
   | "epoch", [now, thr, locks] =>
-    match now.toInt?, parseCoins thr, parseLocks locks with
+    match now.toInt?, parseQuotes thr, parseLocks locks with
     | some now, some thr, some locks =>
-      if ¬ thrOk thr then (st, "bad-op") else
       match epoch st now thr locks with
       | none => (st, "err")
       | some (s', info) =>
